@@ -105,3 +105,17 @@ def sum_fast_two_sum(seq):
     if len(seq) >= 3:
         s, t = fast_two_sum(s, t)
     return s, t
+
+
+def dekker_product_fix_overflow(ctx, x, y, xh, xl, yh, yl):
+    # Dekker product with the package's documented fallback: when the product of the high parts overflows
+    # (in either direction) the pair degrades to (x*y, 0).
+    h = x * y
+    t1 = (-h) + xh * yh
+    t2 = t1 + xh * yl
+    t3 = t2 + xl * yh
+    l = t3 + xl * yl
+    overflow = abs(xh * yh) > ctx.constant("largest", x)
+    h = ctx.select(overflow, x * y, h)
+    l = ctx.select(overflow, 0, l)
+    return h, l
